@@ -676,7 +676,7 @@ void UniCompiler::emit_select(const Gp& dst, const Operand_& sel1_, const Operan
 
   // Reverse the condition if we can place the immediate value first or if `dst == sel2`.
   if ((!sel1.is_imm() && sel2.is_imm()) || (sel2.is_reg() && dst.id() == sel2.id())) {
-    ca.reverse();
+    ca.cond = x86::negate_cond(ca.cond);
     std::swap(sel1, sel2);
   }
 
